@@ -42,6 +42,8 @@ pub open spec fn has_ident_attr(attrs: Seq<Attribute>, name: Seq<char>, k: int) 
 pub open spec fn spec_strip_prefix(s: Seq<char>, p: Seq<char>) -> Seq<char> {
     if s.len() >= p.len() && s.subrange(0, p.len() as int) == p { s.subrange(p.len() as int, s.len() as int) } else { s }
 }
+/// `name.starts_with("_")` (str prefix tests have no vstd model; trusted one-liner `Function::is_internal`)
+pub uninterp spec fn spec_name_is_internal(name: Seq<char>) -> bool;
 pub uninterp spec fn spec_fmt1(lit: Seq<char>, a: Seq<char>) -> Seq<char>;
 pub uninterp spec fn spec_fmt2(lit: Seq<char>, a: Seq<char>, b: Seq<char>) -> Seq<char>;
 pub uninterp spec fn spec_display_usize(n: usize) -> Seq<char>;
